@@ -202,7 +202,11 @@ CallK(k, c) ==
               \* removing what a failed Add left behind: either answer, but afterwards nothing may be left
               ELSE IF P \in k.failed /\ c.ret \in {"ok", "ErrNonExistentWatch"}
                    THEN [k EXCEPT !.failed = @ \ {P}, !.flags = (@ \ {"failed_dir_add"}) \cup {"failed_dir_add_removed"}]
-              ELSE IF c.ret = "ErrNonExistentWatch" THEN k ELSE KBad(k, {"C17"}, "remove_nonexistent:" \o c.ret)
+              ELSE IF c.ret = "ErrNonExistentWatch" THEN k
+              \* an entry of a watched directory that the user never added: Remove must refuse; if it does not, the entry is no longer covered
+              ELSE IF \E u \in DOMAIN k.ent : Len(P) = Len(u) + 1 /\ SubSeq(P, 1, Len(u)) = u /\ Known(k, u, P[Len(P)])
+                   THEN KBad([k EXCEPT !.flags = @ \cup {"entry_removed_by_user"}], {"C17"}, "remove_nonexistent:" \o c.ret)
+              ELSE KBad(k, {"C17"}, "remove_nonexistent:" \o c.ret)
     [] c.op = "watchlist" ->
          IF k.closed THEN (IF c.wlnil THEN k ELSE KBad(k, {"C17"}, "watchlist_after_close"))
          \* "only paths the user added": the spelling may be the user's own or the cleaned one
